@@ -66,12 +66,21 @@ class D(Driver):
             finally:
                 world.in_engine = None
             world.app_log.append((op, res))
+        f = job.get("fault")
+        w.fault_count = 0
+        if f:
+            def fault(side, name, phase, idx, a):
+                if phase == "before" and side == f["side"] and name == f["name"]:
+                    w.fault_count += 1
+                    if w.fault_count == f["nth"]:
+                        raise ex.CloudTemporaryError("injected transient error")
+            w.fault = fault
         w.unreq = []
         w.unwanted = set()
         w.hooks["actions"] = actions
         w.hooks["action"] = action
         w.hooks["users_done"] = users_done
-        w.hooks["key"] = lambda world: (world.app_pos, tuple(sorted(world.requested)))
+        w.hooks["key"] = lambda world: (world.app_pos, tuple(sorted(world.requested)), world.fault_count)
         return w
 
     def allowed_local(self, w, rel):
@@ -197,6 +206,15 @@ def jobs(tier):
                 if auto:
                     opts["autosync"] = auto
                 out.append({"prop": PROP, "cfg": cfg, "order": "asc", "base": BASE_R, "scripts": st, "app": app, "opts": opts,
+                            "mode": {"k": None, "cap": 2500 if tier == "quick" else 10000, "depth": 60, "audit": 0}})
+    # a transient provider error while an un-request pushes the pending local edit up: the edit must not be dropped
+    for cfg in cfgs:
+        for path in ("r1", "d/r2"):
+            for nth in (1, 2):
+                out.append({"prop": PROP, "cfg": cfg, "order": "asc", "base": BASE_R,
+                            "scripts": [[["write", path, "L1"]], []], "app": [["REQ", path], ["UNREQ", path]],
+                            "fault": {"side": 1, "name": "upload", "nth": nth},
+                            "opts": {"smart": True, "check_base": False, "base_side": 1},
                             "mode": {"k": None, "cap": 2500 if tier == "quick" else 10000, "depth": 60, "audit": 0}})
     return out
 
